@@ -9,7 +9,7 @@ EXPLANATION = (
     "closure of the four methods (minus the forwarded call) contains only divan's tally helpers and an allow-list of "
     "non-allocating core items; there is no indirect call, Drop terminator or formatting machinery. R09.3: the "
     "thread-local slot is const-initialised, its type needs no drop (so std selects the destructor-free accessor), "
-    "and it is read through try_with, never with.")
+    "and it is read through try_with, never with. R09.2 as built: an external callee is accepted when it is on the explicit allow-list or is defined in crate core (no allocator) and is not a panicking / formatting / call-back function; local helpers of any name are held to the same standard transitively. R09.3 as built: the slot is const-initialised (no LazyStorage; a lazy initialiser's callees are reported) and its bare slot type needs no drop.")
 NOT_DECIDED = ["behaviour of the wrapped allocator itself", "macOS pthread-key implementation (cfg not analysable here)"]
 TRUSTED = ["std LocalKey const-init fast path registers no destructor when needs_drop::<T>() is false",
            "Assert(Overflow) in the dev-profile tally arithmetic is unreachable below 2^63 operations (K2 has none)"]
